@@ -190,6 +190,9 @@ class SchedulingProblem(  # type: ignore[misc]
         for _, eff in self.base_effects:
             factory.update_problem_kind_effect(eff)
 
+        for variable in self.base_variables:
+            factory.update_action_parameter(variable)
+
         for act in self.activities:
             if act.optional:
                 factory.kind.set_scheduling("OPTIONAL_ACTIVITIES")
